@@ -53,6 +53,8 @@ var kinds = map[string][]string{
 	// clean-up function that itself ends the test
 	"BDA": {"exec hpid pidfile 0 30 &", "waitfile pidfile", "recordpid pidfile", "deferabort", "bad"},
 	"BDK": {"exec hpid pidfile 0 30 &", "waitfile pidfile", "recordpid pidfile", "deferlog a", "deferabort", "skip"},
+	// a program run in the foreground
+	"EX": {"exec hexit 0", "env V=ex", "snapshot", "exec hexit 0"},
 }
 
 type scenario struct {
@@ -66,6 +68,10 @@ type scenario struct {
 	// directory of its own; names that RunT has to tell apart ("foo#1" next to
 	// two files called "foo")
 	Bases []string `json:"bases,omitempty"`
+	// OneAtATime: the T runs every script to its end inside Run and its Parallel
+	// does not pause (cmd/testscript's T and the package's own fakeT work that
+	// way); Params.Deadline is set, an hour away
+	OneAtATime bool `json:"one_at_a_time,omitempty"`
 	// TestWork: Params.TestWork set without WorkdirRoot: work directories (and
 	// with them the shared root) are to be kept
 	TestWork bool `json:"test_work,omitempty"`
@@ -82,6 +88,9 @@ func (s scenario) String() string {
 	}
 	if s.Bases != nil {
 		sb += fmt.Sprintf(" file-base-names=%q", s.Bases)
+	}
+	if s.OneAtATime {
+		sb += " one-at-a-time-T deadline-in-1h"
 	}
 	if s.TestWork {
 		sb += " TestWork"
@@ -304,6 +313,25 @@ func (in *instance) body() {
 		t.ParallelHook = func(string) { <-gate }
 		defer func() { close(gate); wg.Wait() }()
 	}
+	if in.sc.OneAtATime {
+		t.ParallelHook = func(string) {}
+		if sched.Active() {
+			t.RunHook = func(name string, body func()) {
+				done := false
+				sched.Go(name, func() {
+					defer func() { done = true }()
+					body()
+				})
+				sched.Block(sched.Op{Kind: "run-returns", Obj: name}, func() bool { return done })
+			}
+		} else {
+			t.RunHook = func(name string, body func()) {
+				done := make(chan struct{})
+				go func() { defer close(done); body() }()
+				<-done
+			}
+		}
+	}
 	p := testscript.Params{Files: files, Cmds: in.cmds(), Setup: func(e *testscript.Env) error {
 		in.mu.Lock()
 		in.ts[strings.TrimPrefix(filepath.Base(e.WorkDir), "script-")] = e.T()
@@ -316,6 +344,9 @@ func (in *instance) body() {
 		p.WorkdirRoot = in.keepDir
 	}
 	p.TestWork = in.sc.TestWork
+	if in.sc.OneAtATime {
+		p.Deadline = time.Now().Add(time.Hour)
+	}
 	testscript.RunT(t, p)
 	rootDone = true
 }
@@ -552,6 +583,9 @@ func scenarios(th bool) []scenario {
 	// file names that collide with the names RunT makes up to tell duplicates apart
 	for _, bases := range [][]string{{"foo#1", "foo", "foo"}, {"foo", "foo#1", "foo"}, {"foo", "foo", "foo#1"}, {"foo#2", "foo#1", "foo"}} {
 		scs = append(scs, scenario{Scripts: []string{"P", "E", "F"}, Bound: 1, Bases: bases})
+	}
+	for _, p := range [][]string{{"P", "EX", "EX"}, {"F", "EX"}, {"K", "EX", "B"}, {"EX", "T", "EX"}} {
+		scs = append(scs, scenario{Scripts: p, Bound: 0, OneAtATime: true}, scenario{Scripts: p, Bound: 0, OneAtATime: true, Keep: true})
 	}
 	scs = append(scs, scenario{Scripts: []string{"P", "F"}, Bound: b2, Bases: []string{"foo#1", "foo#1"}}, scenario{Scripts: []string{"P", "E", "F", "P"}, Bound: 0, Bases: []string{"foo#1", "foo", "foo", "foo"}})
 	// single scripts: every exit path on its own (cleanup with one script)
